@@ -5,7 +5,7 @@
 SRC=$1; NAME=$2; shift 2
 ROOT=$(cd "$(dirname "$0")/.." && pwd)
 TMP=${TMPDIR:-/tmp}/gvc-seed-$$
-rm -rf "$TMP"; mkdir -p "$TMP"; rsync -a --exclude .git /repo/ "$TMP/"
+rm -rf "$TMP"; mkdir -p "$TMP"; rsync -a --exclude .git "${EVAL_REPO:-/repo}/" "$TMP/"
 export GOFLAGS=-mod=mod GOPROXY=off
 cd "$TMP" || exit 2
 cp "$SRC/demo_test.go" zz_demo_test.go
